@@ -773,7 +773,7 @@ func classifyH(h History) core.Class {
 	if s.linkDel {
 		link = "add+remove"
 	}
-	cl.Fingerprint = fmt.Sprintf("death=%v|link=%s|num=%s|listeners=%s|edit=%v|hi=%v|collide=%v|db=%s", s.death, link, s.numClass, strings.Join(lk, "+"), s.ledit, s.hiID, s.lcollide, h.dbMode())
+	cl.Fingerprint = fmt.Sprintf("death=%v|link=%s|num=%s|listeners=%s|edit=%v|hi=%v|collide=%v", s.death, link, s.numClass, strings.Join(lk, "+"), s.ledit, s.hiID, s.lcollide)
 	return cl
 }
 
